@@ -475,39 +475,31 @@ impl Document {
 
         let mut to_remove = VecDeque::new();
 
-        let mut cursor = 1;
+        let mut cursor = 0;
 
-        let mut initialism_start = None;
+        while cursor + 1 < self.tokens.len() {
+            // Count the consecutive `<single letter><period>` pairs that start here.
+            let start = cursor;
+            let mut end = start;
 
-        loop {
-            let a = &self.tokens[cursor - 1];
-            let b = &self.tokens[cursor];
+            while end + 1 < self.tokens.len() {
+                let a = &self.tokens[end];
+                let b = &self.tokens[end + 1];
 
-            let is_initialism_chunk = a.kind.is_word() && a.span.len() == 1 && b.kind.is_period();
-
-            if is_initialism_chunk {
-                if initialism_start.is_none() {
-                    initialism_start = Some(cursor - 1);
+                if a.kind.is_word() && a.span.len() == 1 && b.kind.is_period() {
+                    end += 2;
                 } else {
-                    to_remove.push_back(cursor - 1);
+                    break;
                 }
-
-                to_remove.push_back(cursor);
-                cursor += 1;
-            } else {
-                if let Some(start) = initialism_start {
-                    let end = self.tokens[cursor - 2].span.end;
-                    let start_tok: &mut Token = &mut self.tokens[start];
-                    start_tok.span.end = end;
-                }
-
-                initialism_start = None;
             }
 
-            cursor += 1;
-
-            if cursor >= self.tokens.len() - 1 {
-                break;
+            if end > start {
+                // Fold every pair into the first token, up to and including the last period.
+                self.tokens[start].span.end = self.tokens[end - 1].span.end;
+                to_remove.extend(start + 1..end);
+                cursor = end;
+            } else {
+                cursor += 1;
             }
         }
 
